@@ -17,7 +17,8 @@ RULE = ("A zoo transform (forward or inverse direction) or a flow's log_prob ove
         "<grad, d> equals the central difference (s(+hd)-s(-hd))/2h, h=1e-6, cross-checked at h/2 (disagreement of the two step "
         "sizes = kink -> inconclusive); a tensor whose finite difference is non-zero must not get a None/zero gradient; a second "
         "forward+backward succeeds. Also: s built from sample_and_log_prob(2, context) under a fixed RNG state (reparameterised draws), and "
-        "every target optionally after one ordinary training step (training-mode forward on inputs with autograd history + backward). Non-trivial: some parameter tensor has a non-zero directional derivative.")
+        "every target optionally after one ordinary training step (training-mode forward on inputs with autograd history + backward), or after a call in the other direction (half-filled evaluation-mode caches). Difference quotients whose noise - measured at "
+        "neighbouring floating-point inputs - dominates are inconclusive. Non-trivial: some parameter tensor has a non-zero directional derivative.")
 ASSUMPTIONS = ["UMNN gradients are quadrature-approximate (Clenshaw-Curtis with 20 nodes; tolerance 5e-2 relative)", "kinks (ReLU-type conditioners, knots of the linear "
                "spline) are detected by step-size disagreement and skipped"]
 EXPLANATION = "generated"
